@@ -77,7 +77,8 @@ case "$cmd" in
   setup)
     build_rewriter >/dev/null || exit 2
     bin=$(build) || exit 2
-    echo "setup ok: $bin"
+    rbin=$(build race) || exit 2
+    echo "setup ok: $bin $rbin"
     ;;
   build)
     build "${1:-}" || exit 2
@@ -115,10 +116,35 @@ EOF
     bin=$(build) || exit 2
     if [ -x "$ROOT/checks/$id.pre" ]; then "$ROOT/checks/$id.pre" || exit $?; fi
     "$bin" -test.run='^TestHarness$' -test.timeout=0 -mode=coord -prop="$id" -tier="$tier" -seed="$seed" -workers="$workers" -seconds="$seconds" -maxruns="$maxruns" -root="$ROOT" -level="$level"
-    exit $?
+    code=$?
+    if [ "$id" = "C01" ]; then
+      # the race-freedom clause: goroutines released together under the race detector (not serialised)
+      rbin=$(build race) || exit 2
+      rsec=$(python3 -c "print(max(6, $seconds/3))")
+      rm -f "$CACHE/extra-C01.json"
+      "$rbin" -test.run='^TestRace$' -test.timeout=0 -mode=coord -seed="$seed" -seconds="$rsec" -workers="$workers" -root="$ROOT" -tier="$tier"
+      rcode=$?
+      if [ -f "$CACHE/extra-C01.json" ] && [ -f "$ROOT/evidence/C01.json" ]; then
+        python3 - "$ROOT/evidence/C01.json" "$CACHE/extra-C01.json" "$rcode" <<'PYEOF'
+import json,sys
+ev=json.load(open(sys.argv[1])); ex=json.load(open(sys.argv[2]))
+ev["coverage"]["race_clause"]=ex
+ev["coverage"]["evaluations"]+=ex.get("runs",0)
+if sys.argv[3]=="1": ev["violations"]=ev.get("violations",0)+1
+json.dump(ev,open(sys.argv[1],"w"),indent=1)
+PYEOF
+      fi
+      if [ $code -eq 1 ] || [ $rcode -eq 1 ]; then code=1; elif [ $rcode -ne 0 ]; then code=$rcode; fi
+    fi
+    exit $code
     ;;
   replay)
     [ -f "${1:-}" ] || die2 "usage: verif.sh replay <path>"
+    if grep -q '"world": "treerace"' "$1"; then
+      rbin=$(build race) || exit 2
+      "$rbin" -test.run='^TestRace$' -test.timeout=0 -mode=replay -file="$1" -root="$ROOT"
+      exit $?
+    fi
     bin=$(build) || exit 2
     "$bin" -test.run='^TestHarness$' -test.timeout=0 -mode=replay -file="$1" -root="$ROOT"
     exit $?
